@@ -3,7 +3,8 @@
 
 The state is exactly the persistent state of `wtxmgr/db.go` (ten buckets + the `bal` root key); every
 operation is a line-by-line transcription of the Go function named next to it (`wtxmgr/tx.go`,
-`wtxmgr/unconfirmed.go`, `wtxmgr/query.go`, `wtxmgr/db.go`), quirks included.
+`wtxmgr/unconfirmed.go`, `wtxmgr/query.go`, `wtxmgr/db.go`), quirks included (tree at /repo 4c73b71: rollback tells removed credits by existence, remembers every coinbase
+output, LockOutput rounds the expiry up to whole seconds).
 
 * Buckets are *sorted association lists* (`KMap`), ordered exactly like bbolt orders the big-endian byte
   keys of `db.go` (hash as a 256-bit big-endian number, then height, block hash, index).  `find?`, `insert`,
@@ -455,9 +456,10 @@ structure RB where
 def rbCoinbaseOut (rec : Tx) (blk : Block) (r : RB) (io : Nat × Int) : RB :=
   let (i, value) := io
   let k : CredKey := ⟨rec.hash, blk, i⟩
-  if !r.s.credits.contains k then r else
   let op : OutPoint := ⟨rec.hash, i⟩
+  -- every output of the removed coinbase is remembered, credited or not (its unconfirmed spenders become invalid)
   let r := { r with cb := r.cb ++ [op] }
+  if !r.s.credits.contains k then r else
   let r := if r.s.unspent.contains op then
       { r with bal := r.bal - value, s := { r.s with unspent := r.s.unspent.erase op } } else r
   { r with s := { r.s with credits := r.s.credits.erase k } }
@@ -471,7 +473,7 @@ def rbInput (rec : Tx) (blk : Block) (r : RB) (ii : Nat × OutPoint) : RB :=
   | some d =>
     let (amt, s) := unspendRawCredit s d.credKey
     let s := { s with debits := s.debits.erase ⟨rec.hash, blk, i⟩ }
-    if amt == 0 then { r with s := s }        -- "credit was previously removed in the rollback" (sic: also a zero-value credit)
+    if !s.credits.contains d.credKey then { r with s := s }   -- the credit was removed earlier in this rollback
     else { r with bal := r.bal + amt, s := { s with unspent := s.unspent.insert inp d.credKey.block } }
 
 /-- non-coinbase branch, output loop: one output. -/
@@ -680,7 +682,14 @@ def isKnownOutput (s : Store) (op : OutPoint) : Bool := s.unminedCredits.contain
 /-- `time.Time.Unix()` of a nanosecond instant: floor to whole seconds. -/
 def unixSeconds (ns : Int) : Int := ns / 1000000000
 
-/-- `LockOutput`: returns the expiry handed to the caller (ns) and the new store (which holds whole seconds). -/
+/-- the expiry `LockOutput` grants: `now + duration`, rounded UP to the next whole second when it has a sub-second
+part (`expiry.Nanosecond() != 0`), in ns -/
+def grantedExpiry (now : Nat) (duration : Int) : Int :=
+  let e : Int := (now : Int) + duration
+  if e % 1000000000 = 0 then e else (e / 1000000000 + 1) * 1000000000
+
+/-- `LockOutput`: returns the expiry handed to the caller (ns) and the new store (which holds the same instant in
+whole seconds). -/
 def lockOutput (s : Store) (now : Nat) (id : Nat) (op : OutPoint) (duration : Int) : M (Int × Store) :=
   if !isKnownOutput s op then throw Err.unknownOutput
   else
@@ -688,7 +697,8 @@ def lockOutput (s : Store) (now : Nat) (id : Nat) (op : OutPoint) (duration : In
       | some l => decide (l.id ≠ id)
       | none => false
     if otherId then throw Err.alreadyLocked
-    else pure ((now : Int) + duration, { s with locked := s.locked.insert op ⟨id, unixSeconds (now + duration)⟩ })
+    else pure (grantedExpiry now duration,
+      { s with locked := s.locked.insert op ⟨id, unixSeconds (grantedExpiry now duration)⟩ })
 
 /-- `UnlockOutput` -/
 def unlockOutput (s : Store) (now : Nat) (id : Nat) (op : OutPoint) : M Store :=
